@@ -134,6 +134,7 @@ def cli(argv=sys.argv, mode='output'):
         return G.to_dimacs()
     else:
         G.to_file(args.output, fileformat='dimacs')
+        args.output.flush()
 
 
 # Launcher
